@@ -202,7 +202,7 @@ def match_known(known, pid, viol):
     for k in known.get('open', []):
         if k['property'] != pid:
             continue
-        if k['cls'] != viol['cls']:
+        if viol['cls'] not in (k['cls'] if isinstance(k['cls'], list) else [k['cls']]):
             continue
         sig = k.get('sig')
         if sig is None or sig == viol.get('sig'):
